@@ -276,8 +276,19 @@ func (e *NilSafeErr) Error() string {
 	return e.Msg
 }
 
-// errTokClass: the classes of the error tokens 1..6 (must equal ErrTokClass of Funcs.tla).
-var errTokClass = []string{"plain", "plain", "wraps_call_shape_error", "call_error_not_reported", "call_error_reported", "typed_nil"}
+// SliceErr and MapErr are error implementations of slice and map kind: their nil values are the
+// "nothing collected" results of a validator-style handler - non-nil errors all the same.
+type SliceErr []string
+
+func (e SliceErr) Error() string { return fmt.Sprintf("%d problems", len(e)) }
+
+type MapErr map[string]string
+
+func (e MapErr) Error() string { return fmt.Sprintf("%d field errors", len(e)) }
+
+// errTokClass: the classes of the error tokens 1..8 (must equal ErrTokClass of Funcs.tla).
+var errTokClass = []string{"plain", "plain", "wraps_call_shape_error", "call_error_not_reported", "call_error_reported",
+	"typed_nil", "typed_nil_slice", "typed_nil_map"}
 
 // tokDom is the number of the highest token of type t.
 func tokDom(t reflect.Type) int {
@@ -313,6 +324,12 @@ func errorToken(tok int) error {
 		return schema.NewFunctionCallError(errors.New("helper failed"), true)
 	case "typed_nil":
 		var p *NilSafeErr
+		return p
+	case "typed_nil_slice":
+		var p SliceErr
+		return p
+	case "typed_nil_map":
+		var p MapErr
 		return p
 	}
 	panic("no error token " + fmt.Sprint(tok))
@@ -660,7 +677,7 @@ func (f *fnT) call(fn schema.CallableFunction, c callT) callObs {
 		}
 		// direct: an error the handler returned is reported as the function's - whatever it is or wraps
 		if n := len(f.st.returned); n > 0 && f.st.invoked == 1 && len(f.results) > 0 && f.results[n-1] == errorType && f.exact() {
-			if he, ok := f.st.returned[n-1].Interface().(error); ok && he != nil && !isTypedNil(he) && !o.Reported {
+			if he, ok := f.st.returned[n-1].Interface().(error); ok && he != nil && !o.Reported {
 				o.Direct = "the handler returned an error and Call does not report it as function-reported"
 			}
 		}
@@ -696,12 +713,52 @@ func isSource(err error, fce *schema.FunctionCallError, he error) bool {
 	if he == nil {
 		return false
 	}
-	return (fce.SourceError != nil && errors.Is(fce.SourceError, he)) || errors.Is(err, he)
+	return (fce.SourceError != nil && inChain(fce.SourceError, he)) || inChain(err, he)
 }
 
 func isTypedNil(e error) bool {
 	v := reflect.ValueOf(e)
-	return v.Kind() == reflect.Ptr && v.IsNil()
+	switch v.Kind() {
+	case reflect.Ptr, reflect.Slice, reflect.Map:
+		return v.IsNil()
+	}
+	return false
+}
+
+// sameErr: a is the error value b (== where the type is comparable; for slice and map kinds the
+// same type and the same underlying storage, nil included).
+func sameErr(a, b error) bool {
+	if a == nil || b == nil {
+		return false
+	}
+	ta, tb := reflect.TypeOf(a), reflect.TypeOf(b)
+	if ta != tb {
+		return false
+	}
+	if ta.Comparable() {
+		return a == b
+	}
+	va, vb := reflect.ValueOf(a), reflect.ValueOf(b)
+	switch va.Kind() {
+	case reflect.Slice, reflect.Map:
+		return va.IsNil() == vb.IsNil() && va.Pointer() == vb.Pointer() && va.Len() == vb.Len()
+	}
+	return false
+}
+
+// inChain: he is e or something e wraps (errors.Is for comparable types, sameErr along the
+// Unwrap chain otherwise).
+func inChain(e, he error) bool {
+	if reflect.TypeOf(he).Comparable() {
+		return errors.Is(e, he)
+	}
+	for e != nil {
+		if sameErr(e, he) {
+			return true
+		}
+		e = errors.Unwrap(e)
+	}
+	return false
 }
 
 func hasTok(ts []int, t int) bool {
@@ -840,6 +897,10 @@ func runBind(c caseT, r *resT) {
 		switch errTokClass[tok-1] {
 		case "plain":
 			ok = ok && !isFCE && !isTypedNil(e)
+		case "typed_nil_slice":
+			ok = ok && isTypedNil(e) && reflect.ValueOf(e).Kind() == reflect.Slice
+		case "typed_nil_map":
+			ok = ok && isTypedNil(e) && reflect.ValueOf(e).Kind() == reflect.Map
 		case "wraps_call_shape_error":
 			ok = ok && isFCE && !direct && !fce.IsFunctionReportedError
 		case "call_error_not_reported":
@@ -847,7 +908,7 @@ func runBind(c caseT, r *resT) {
 		case "call_error_reported":
 			ok = ok && direct && fce.IsFunctionReportedError
 		case "typed_nil":
-			ok = ok && isTypedNil(e)
+			ok = ok && isTypedNil(e) && reflect.ValueOf(e).Kind() == reflect.Ptr
 		}
 		if !ok {
 			fail("error token %d is not of class %s: %#v", tok, errTokClass[tok-1], e)
